@@ -454,7 +454,7 @@ Lemma rstep_spec st e :
   (rs_rdead st = true -> rs_rdead (fst r) = true) /\
   (PF st -> PF (fst r) /\ out_no_ping (snd r)).
 Proof.
-  intros Hi. cbn zeta. destruct e as [ws|ws s ce|bs|normal|take| |s ce]; cbn [rstep].
+  intros Hi. cbn zeta. destruct e as [ws|ws s ce|bs|normal cls|take| |s ce]; cbn [rstep].
   - (* Batch *)
     pose proof (write_batch_spec ws st Hi) as (B1 & B2 & B3 & B4 & B5 & B6 & B7 & B8 & B9 & B10 & B11 & B12).
     cbn zeta in *. cbn [fst snd accepted_of out_no_block out_no_ping].
@@ -748,7 +748,7 @@ Proof.
     assert (G : forall evs st, Inv st -> rs_pr st <> PDone RBlocked -> rs_pr (fst (rrun st evs)) <> PDone RBlocked).
     { clear. induction evs as [|e evs IH]; intros st Hi P; [exact P|].
       rewrite rrun_cons; cbn [fst]. apply IH; [now destruct (rstep_spec st e Hi)|].
-      destruct e as [ws|ws s ce|bs|normal|take| |s ce]; cbn [rstep].
+      destruct e as [ws|ws s ce|bs|normal cls|take| |s ce]; cbn [rstep].
       - destruct (write_batch_spec ws st Hi) as (_ & _ & _ & _ & _ & _ & _ & _ & _ & _ & B11 & B12). cbn zeta in *; cbn [fst].
         destruct (rs_pr st) eqn:Q.
         + rewrite B11; [congruence | discriminate].
@@ -818,17 +818,17 @@ Definition over_of (eo : rev * rout) : bool :=
 (* ... or the read side giving up at this step (its redial round fails) *)
 Definition rx_now (st : rstate) (e : rev) : bool :=
   match e with
-  | ReadFail false => reading st && negb (snd (reconnect (rs_budget st) (rs_tid st) (rs_tailhs st) (rs_net st)))
+  | ReadFail false _ => reading st && negb (snd (reconnect (rs_budget st) (rs_tid st) (rs_tailhs st) (rs_net st)))
   | _ => false
   end.
 Definition over_of' (eo : rev * rout) : bool :=
-  over_of eo || match eo with (ReadFail false, OReadFail false) => true | _ => false end.
+  over_of eo || match eo with (ReadFail false _, OReadFail false) => true | _ => false end.
 
 Lemma cancel_step st e :
   Inv st ->
   rs_cancel (fst (rstep st e)) = rs_cancel st || over_of (e, snd (rstep st e)) || rx_now st e.
 Proof.
-  intros Hi. destruct e as [ws|ws s ce|bs|normal|take| |s ce]; cbn [rstep rx_now]; rewrite ?orb_false_r.
+  intros Hi. destruct e as [ws|ws s ce|bs|normal cls|take| |s ce]; cbn [rstep rx_now]; rewrite ?orb_false_r.
   + destruct (write_batch_spec ws st Hi) as (_ & _ & _ & _ & _ & _ & _ & B8 & _). cbn zeta in *. cbn [fst snd over_of]. exact B8.
   + destruct (do_close_spec st s Hi) as (_ & _ & _ & _ & D5 & _). cbn zeta in *. cbn [fst snd over_of]. rewrite D5. now rewrite orb_true_r.
   + destruct (reading st) eqn:R; [|cbn; now rewrite orb_false_r].
@@ -852,7 +852,7 @@ Qed.
 
 Lemma rx_now_out st e : rx_now st e = true -> over_of' (e, snd (rstep st e)) = true.
 Proof.
-  destruct e as [ws|ws s ce|bs|[|]|take| |s ce]; cbn [rx_now]; try discriminate.
+  destruct e as [ws|ws s ce|bs|[|] cls|take| |s ce]; cbn [rx_now]; try discriminate.
   intros H. apply andb_true_iff in H as (R & S). apply negb_true_iff in S.
   cbn [rstep]. rewrite R, S. reflexivity.
 Qed.
@@ -892,9 +892,9 @@ Proof.
   intros take P. apply (read_start_spec fin take Hi); [exact P | rewrite D; apply orb_true_r].
 Qed.
 
-Lemma read_fail_ends_reader st normal :
+Lemma read_fail_ends_reader st normal cls :
   Inv st -> reading st = true ->
-  snd (rstep st (ReadFail normal)) = OReadFail false -> rs_rdead (fst (rstep st (ReadFail normal))) = true.
+  snd (rstep st (ReadFail normal cls)) = OReadFail false -> rs_rdead (fst (rstep st (ReadFail normal cls))) = true.
 Proof.
   intros Hi R. cbn [rstep]. rewrite R. destruct normal; cbn [fst snd].
   - intros _. now apply (kill_reader_spec st Hi).
@@ -1000,7 +1000,7 @@ Lemma step_sim st d e :
   exists d', disc_step d (e, snd (rstep st e)) = Some d' /\ Rel (fst (rstep st e)) d'.
 Proof.
   intros Hi HR. pose proof HR as (R1 & R2 & R3 & R4 & R5). pose proof (Rel_live st d HR) as RL.
-  destruct e as [ws|ws s ce|bs|normal|take| |s ce]; cbn [rstep].
+  destruct e as [ws|ws s ce|bs|normal cls|take| |s ce]; cbn [rstep].
   - (* Batch *)
     destruct (write_batch_spec ws st Hi) as (_ & _ & _ & _ & B5 & _). cbn zeta in B5.
     destruct (batch_sim ws st d Hi HR) as (d' & E & R).
@@ -1104,7 +1104,7 @@ Qed.
 Lemma no_dial_after_cancel st e :
   rs_cancel st = true -> n_dials (rs_net (fst (rstep st e))) = n_dials (rs_net st).
 Proof.
-  intros C. destruct e as [ws|ws s ce|bs|normal|take| |s ce]; cbn [rstep].
+  intros C. destruct e as [ws|ws s ce|bs|normal cls|take| |s ce]; cbn [rstep].
   - cbn [fst]. revert st C. induction ws as [|w ws IH]; intros st C; [reflexivity|].
     cbn [write_batch fst].
     assert (E : write_one st (snd w) = (st, WErr)) by (unfold write_one; now rewrite C).
@@ -1151,7 +1151,7 @@ Qed.
    the context used not to be cancelled, so a later Write started a fresh round of attempts and
    could return nil.  The former witness, now a regression case: the Write fails. *)
 Definition f33_cfg : rcfg := mkRC 1 1 [DOk true None; DFail; DOk true None] false.
-Definition f33_evs : list rev := [ReadFail false; ReadStart false; ReadJoin; Batch [(1, [7])]].
+Definition f33_evs : list rev := [ReadFail false 0; ReadStart false; ReadJoin; Batch [(1, [7])]].
 
 Lemma f33_regression :
   rk_outs (model_case f33_cfg f33_evs) = [OReadFail false; OUnit; ORead RErr; OBatch [WErr]] /\
@@ -1159,11 +1159,11 @@ Lemma f33_regression :
 Proof. vm_compute. auto. Qed.
 
 (* the read side giving up cancels the context: every later Write fails *)
-Lemma read_side_exhaustion_cancels st :
+Lemma read_side_exhaustion_cancels st cls :
   Inv st -> reading st = true ->
-  snd (rstep st (ReadFail false)) = OReadFail false ->
-  rs_cancel (fst (rstep st (ReadFail false))) = true /\
-  forall bs, snd (write_one (fst (rstep st (ReadFail false))) bs) = WErr.
+  snd (rstep st (ReadFail false cls)) = OReadFail false ->
+  rs_cancel (fst (rstep st (ReadFail false cls))) = true /\
+  forall bs, snd (write_one (fst (rstep st (ReadFail false cls))) bs) = WErr.
 Proof.
   intros Hi R. cbn [rstep]. rewrite R.
   destruct (snd (reconnect _ _ _ _)); cbn [fst snd]; [discriminate|]. intros _.
@@ -1222,7 +1222,7 @@ Lemma step_reads st e :
   Inv st ->
   held st ++ taken st e = reads_of [snd (rstep st e)] ++ held (fst (rstep st e)).
 Proof.
-  intros Hi. destruct e as [ws|ws s ce|bs|normal|take| |s ce]; cbn [rstep taken].
+  intros Hi. destruct e as [ws|ws s ce|bs|normal cls|take| |s ce]; cbn [rstep taken].
   - destruct (write_batch_spec ws st Hi) as (_ & _ & _ & _ & _ & _ & _ & _ & B9 & _ & B11 & B12). cbn zeta in *.
     cbn [fst snd reads_of flat_map app]. rewrite app_nil_r. symmetry. apply held_frozen; auto.
     intros P. rewrite (B12 P). now destruct (rs_cancel _).
@@ -1283,4 +1283,32 @@ Lemma reads_fifo c st evs :
 Proof.
   intros H. destruct (rc_new_spec c st H) as (Hi & _ & _ & _ & _ & _ & Q0 & P0 & _).
   rewrite <- (run_reads evs st Hi). unfold held. now rewrite Q0, P0.
+Qed.
+
+(* The read loop classifies a read error only as "the peer's NORMAL close" or not: the close
+   status an error carries otherwise (going away, abnormal, internal error, none) changes nothing,
+   and - the budget permitting - every such failure is answered by a redial, never by ending
+   the reader. *)
+Lemma read_fail_status_irrelevant st cls cls' :
+  rstep st (ReadFail false cls) = rstep st (ReadFail false cls').
+Proof. reflexivity. Qed.
+
+Lemma non_normal_read_failure_redials st cls :
+  Inv st -> reading st = true ->
+  snd (reconnect (rs_budget st) (rs_tid st) (rs_tailhs st) (rs_net st)) = true ->
+  let r := rstep st (ReadFail false cls) in
+  snd r = OReadFail true /\ reading (fst r) = true /\
+  rs_net (fst r) = fst (reconnect (rs_budget st) (rs_tid st) (rs_tailhs st) (rs_net st)) /\
+  rs_readq (fst r) = rs_readq st /\ rs_pr (fst r) = rs_pr st.
+Proof. intros Hi R S. cbn zeta. cbn [rstep]. rewrite R, S. cbn [fst snd]. repeat split. exact R. Qed.
+
+(* the reader ends only by a cancellation (Close, exhausted budget), the peer's normal close, or
+   a failed redial round *)
+Lemma reader_ends_only st normal cls :
+  Inv st -> reading st = true -> reading (fst (rstep st (ReadFail normal cls))) = false ->
+  normal = true \/ snd (reconnect (rs_budget st) (rs_tid st) (rs_tailhs st) (rs_net st)) = false.
+Proof.
+  intros Hi R. destruct normal; [now left|]. right.
+  destruct (snd (reconnect _ _ _ _)) eqn:S; [|reflexivity].
+  destruct (non_normal_read_failure_redials st cls Hi R S) as (_ & X & _). cbn zeta in X. congruence.
 Qed.
